@@ -197,7 +197,9 @@ fn plant(b: &mut Built, ch: &mut Ch) -> Plan {
         for c in cols.iter().skip(3) {
             es.push(if c.role == ColRole::ExpectedOnly { Entry::X(true) } else { Entry::Num(0, Radix::Dec) });
         }
-        b.prog.stmts.insert(0, Stmt::Loop("rz".into(), Expr::lit(2), vec![Stmt::ResetRandom, Stmt::Row(id, es)]));
+        // (`which == 3`: the `resetRandom;` is the last statement of the body instead)
+        let body = if which == 2 { vec![Stmt::ResetRandom, Stmt::Row(id, es)] } else { vec![Stmt::Row(id, es), Stmt::ResetRandom] };
+        b.prog.stmts.insert(0, Stmt::Loop("rz".into(), Expr::lit(2), body));
         plan.loop_reset = Some(id);
     }
     if which < 2 {
